@@ -169,6 +169,11 @@ func (fr *frame) store(T types.Type, addr *value, v value) {
 }
 
 func (fr *frame) appendValues(dst, src []value) []value {
+	return fr.appendValuesT(dst, src, nil)
+}
+
+// appendValuesT appends; elem (may be nil = byte) is the element type used to zero the slack.
+func (fr *frame) appendValuesT(dst, src []value, elem types.Type) []value {
 	if len(src) == 0 {
 		return dst
 	}
@@ -188,6 +193,14 @@ func (fr *frame) appendValues(dst, src []value) []value {
 	res := make([]value, n+len(src), nc)
 	copy(res, dst)
 	copy(res[n:], src)
+	slack := res[n+len(src) : nc]
+	for i := range slack {
+		if elem == nil {
+			slack[i] = uint8(0)
+		} else {
+			slack[i] = zero(elem)
+		}
+	}
 	return res
 }
 
